@@ -68,7 +68,6 @@ Proof. induction l as [|a t IH]; cbn; auto. destruct (f a); cbn; lia. Qed.
 Section Strict.
   Variable matching : nat -> nat -> list range3.
   Variable nodes : list node.
-  Variable start : nat.
 
   (** [p] is the target of a missing edge: a commit outside the searched range. *)
   Definition is_mt (p : nat) : bool :=
@@ -101,7 +100,21 @@ Section Strict.
     apply H_mt_not_node. rewrite Hn. apply in_or_app. right. right. exact Hnd'.
   Qed.
 
-  Definition final (o : origin) : Prop := o_ok o = true \/ is_mt (o_commit o) = true.
+  (** a settled line: resolved, or left in an omitted parent (where it is still recorded, so
+      that a later, wider [compute] call can pick it up) *)
+  Definition final (st : state) (o : origin) (s : nat) : Prop :=
+    o_ok o = true \/
+    (is_mt (o_commit o) = true /\
+     exists m x, lookup (o_commit o) (st_srcs st) = Some m /\ In (x, s) m).
+
+  Lemma final_step st st' o s : final st o s ->
+    (forall q m x, is_mt q = true -> lookup q (st_srcs st) = Some m -> In (x, s) m ->
+       exists m', lookup q (st_srcs st') = Some m' /\ In (x, s) m') ->
+    final st' o s.
+  Proof.
+    intros [H|[Hm [m [x [Hl Hx]]]]] Hk; [now left|]. right. split; auto.
+    destruct (Hk _ _ _ Hm Hl Hx) as [m' [Hl' Hx']]. eauto.
+  Qed.
 
   Definition count_mt (l : list (nat * lmap)) : nat :=
     length (filter (fun kv => is_mt (fst kv)) l).
@@ -131,7 +144,7 @@ Section Strict.
     exists c m x, lookup c (st_srcs st) = Some m /\ is_mt c = false /\ In (x, s) m.
 
   Record K (post : list node) (st : state) (extra : lmap) : Prop := {
-    Kf : forall s o, nth_error (st_olm st) s = Some o -> final o \/ pend st extra s;
+    Kf : forall s o, nth_error (st_olm st) s = Some o -> final st o s \/ pend st extra s;
     Kk : forall c m, lookup c (st_srcs st) = Some m ->
            m <> [] /\ (is_mt c = true \/ In c (map fst post));
     Kn : NoDup (keys (st_srcs st));
@@ -261,7 +274,8 @@ Section Strict.
       assert (Hsame : forall s, In s (lines (newcur ++ rest)) <-> In s (lines curmap)).
       { intros s. rewrite <- Hcur'. rewrite Hnp. cbn. tauto. }
       constructor; cbn [st_olm st_srcs st_unres]; auto.
-      + intros s o Ho. destruct (Kf0 s o Ho) as [Hf|[Hx|Hx]]; auto.
+      + intros s o Ho. destruct (Kf0 s o Ho) as [Hf|[Hx|Hx]].
+        * left. exact Hf.
         * right. left. apply in_lines. apply Hsame. apply in_lines. exact Hx.
         * right. right. exact Hx.
       + split; auto. intros x s Hin. assert (Hs : In s (lines curmap)) by (apply Hsame; apply in_lines; eauto).
@@ -288,11 +302,25 @@ Section Strict.
         assert (Hmtp : is_mt p = true) by (apply (is_mt_intro nd e); auto).
         constructor; cbn [st_olm st_srcs st_unres].
         * intros s o Ho'. assert (Ho := Ho'). apply set_origins_spec in Ho.
-          assert (Hupd_final : forall u, In (s, u) (map (fun ps : nat * nat => (snd ps, mk_origin false p (fst ps))) pm) -> final u).
-          { intros u Hu. apply in_map_iff in Hu. destruct Hu as [[x0 s0] [Heq _]]. inversion Heq; subst.
-            right. cbn. exact Hmtp. }
+          set (st2 := mk_state
+                        (set_origins (st_olm st)
+                           (map (fun ps : nat * nat => (snd ps, mk_origin false p (fst ps))) pm))
+                        (set_key p pm (st_srcs st)) (match pmap with [] => S (st_unres st) | _ => st_unres st end)).
+          assert (Hupd_final : forall u, In (s, u) (map (fun ps : nat * nat => (snd ps, mk_origin false p (fst ps))) pm) ->
+                    final st2 u s).
+          { intros u Hu. apply in_map_iff in Hu. destruct Hu as [[x0 s0] [Heq Hin0]].
+            cbn [fst snd] in Heq. injection Heq as Hs0 Hu'. subst s0 u.
+            right. cbn [o_commit]. split; [exact Hmtp|]. exists pm, x0. unfold st2. cbn [st_srcs].
+            split; [apply lookup_set_key_eq|exact Hin0]. }
+          assert (Hkeep : forall q m x, is_mt q = true -> lookup q (st_srcs st) = Some m -> In (x, s) m ->
+                    exists m', lookup q (st_srcs st2) = Some m' /\ In (x, s) m').
+          { intros q m x Hq Hl Hx. unfold st2. cbn [st_srcs]. destruct (Nat.eq_dec q p) as [->|Hne].
+            - exists pm. split; [apply lookup_set_key_eq|]. apply Hpm'. left.
+              rewrite <- (Hpmap_lookup m Hl). exact Hx.
+            - exists m. split; auto. now rewrite lookup_set_key_neq. }
           destruct Ho as [[u [Hu ->]]|Ho]; [left; now apply Hupd_final|].
-          destruct (Kf0 s o Ho) as [Hf|[[x Hx]|[c0 [m [x [Hl [Hm0 Hx]]]]]]]; auto.
+          destruct (Kf0 s o Ho) as [Hf|[[x Hx]|[c0 [m [x [Hl [Hm0 Hx]]]]]]].
+          -- left. exact (final_step st st2 o s Hf Hkeep).
           -- assert (Hs : In s (lines (newcur ++ rest)) \/ In s (lines newpar))
                by (apply Hcur'; apply in_lines; eauto).
              destruct Hs as [Hs|Hs]; [right; left; apply in_lines; exact Hs|].
@@ -321,7 +349,9 @@ Section Strict.
       + (* edge to a commit of the searched graph *)
         assert (Hmtp : is_mt p = false) by (apply (nonmissing_not_mt pre nd post e); auto).
         constructor; cbn [st_olm st_srcs st_unres].
-        * intros s o Ho. destruct (Kf0 s o Ho) as [Hf|[[x Hx]|[c0 [m [x [Hl [Hm0 Hx]]]]]]]; auto.
+        * intros s o Ho. destruct (Kf0 s o Ho) as [Hf|[[x Hx]|[c0 [m [x [Hl [Hm0 Hx]]]]]]].
+          -- left. apply (final_step st _ o s Hf). intros q m x Hq Hl Hx. cbn [st_srcs].
+             exists m. split; auto. rewrite lookup_set_key_neq; auto. intros ->. congruence.
           -- assert (Hs : In s (lines (newcur ++ rest)) \/ In s (lines newpar))
                by (apply Hcur'; apply in_lines; eauto).
              destruct Hs as [Hs|Hs]; [right; left; apply in_lines; exact Hs|].
@@ -379,7 +409,9 @@ Section Strict.
       set (st0 := mk_state (st_olm st) (remove_key (fst nd) (st_srcs st)) (st_unres st)).
       assert (HK0 : K post st0 curmap).
       { unfold st0. constructor; cbn [st_olm st_srcs st_unres].
-        - intros s o Ho. destruct (Kf0 s o Ho) as [Hf|[[x []]|[c0 [m [x [Hl [Hm Hx]]]]]]]; auto.
+        - intros s o Ho. destruct (Kf0 s o Ho) as [Hf|[[x []]|[c0 [m [x [Hl [Hm Hx]]]]]]].
+          { left. apply (final_step st _ o s Hf). intros q m x Hq Hl Hx. cbn [st_srcs].
+            exists m. split; auto. rewrite lookup_remove_key_neq; auto. intros ->. congruence. }
           right. destruct (Nat.eq_dec c0 (fst nd)) as [->|Hne].
           + left. exists x. assert (m = curmap) by congruence. now subst.
           + right. exists c0, m, x. cbn [st_srcs]. rewrite lookup_remove_key_neq; auto.
@@ -402,7 +434,8 @@ Section Strict.
       + intros s o Ho'. assert (Ho := Ho'). apply set_origins_spec in Ho.
         destruct Ho as [[u [Hu ->]]|Ho].
         { left. apply in_map_iff in Hu. destruct Hu as [[x0 s0] [Heq _]]. inversion Heq. left. reflexivity. }
-        destruct (Kf1 s o Ho) as [Hf|[[x Hx]|Hx]]; auto.
+        destruct (Kf1 s o Ho) as [Hf|[[x Hx]|Hx]].
+        * left. apply (final_step st1 _ o s Hf). intros q m x Hq Hl Hx. cbn [st_srcs]. eauto.
         * (* the line stayed with the current commit: it has just been resolved *)
           assert (Hidx : In s (map fst (map (fun cs : nat * nat => (snd cs, mk_origin true (fst nd) (fst cs))) rest))).
           { rewrite map_map. cbn [fst]. apply in_map_iff. exists (x, s). auto. }
@@ -419,58 +452,98 @@ Section Strict.
       cbn in Hin. destruct Hin as [E|Hin]; [congruence|auto].
   Qed.
 
-  Lemma process_nodes_K : forall post pre st, nodes = pre ++ post -> K post st [] ->
-    forall s o, nth_error (st_olm (process_nodes matching false st post)) s = Some o -> final o.
+  (** what a finished [compute] call leaves behind *)
+  Definition done_ok (st : state) : Prop :=
+    (forall s o, nth_error (st_olm st) s = Some o -> final st o s) /\
+    (forall c, In c (keys (st_srcs st)) -> is_mt c = true) /\
+    NoDup (keys (st_srcs st)) /\
+    (forall c m, lookup c (st_srcs st) = Some m -> m <> []) /\
+    (forall c m x s, lookup c (st_srcs st) = Some m -> In (x, s) m -> s < length (st_olm st)).
+
+  Lemma K_all_mt_done post st :
+    K post st [] -> (forall c, In c (keys (st_srcs st)) -> is_mt c = true) -> done_ok st.
   Proof.
-    induction post as [|nd t IH]; intros pre st Hn HK s o Ho; cbn [process_nodes] in Ho.
-    - destruct (Kf _ _ _ HK s o Ho) as [Hf|Hp]; auto. exfalso.
-      apply (no_pend_all_mt st s); auto. intros c Hc.
+    intros HK Hall. destruct HK as [Kf0 Kk0 Kn0 Ku0 [Kb1 Kb2]]. repeat split; auto.
+    - intros s o Ho. destruct (Kf0 s o Ho) as [Hf|Hp]; auto. exfalso.
+      now apply (no_pend_all_mt st s).
+    - intros c m Hl. apply (Kk0 c m Hl).
+  Qed.
+
+  Lemma process_nodes_K : forall post pre st, nodes = pre ++ post -> K post st [] ->
+    done_ok (process_nodes matching false st post).
+  Proof.
+    induction post as [|nd t IH]; intros pre st Hn HK; cbn [process_nodes].
+    - apply (K_all_mt_done [] st HK). intros c Hc.
       destruct (lookup_some_keys _ _ Hc) as [m Hl].
       destruct (Kk _ _ _ HK c m Hl) as [_ [Hm|[]]]. exact Hm.
     - assert (HK1 := process_commit_K pre nd t st Hn HK).
       set (st1 := process_commit matching false st nd) in *.
       destruct (Nat.eqb_spec (length (st_srcs st1)) (st_unres st1)) as [E|E].
-      + destruct (Kf _ _ _ HK1 s o Ho) as [Hf|Hp]; auto. exfalso.
-        apply (no_pend_all_mt st1 s); auto.
+      + apply (K_all_mt_done t st1 HK1).
         apply count_mt_all. assert (H1 := Ku _ _ _ HK1). assert (H2 := count_mt_le (st_srcs st1)). lia.
-      + refine (IH (pre ++ [nd]) st1 _ HK1 s o Ho). rewrite <- app_assoc. exact Hn.
+      + refine (IH (pre ++ [nd]) st1 _ HK1). rewrite <- app_assoc. exact Hn.
   Qed.
 
-  (** On a closed stream that contains the starting commit, every unresolved origin of the
-      annotation is the target of a missing edge: a commit outside the searched range. *)
-  Theorem annotate_strict nlines : In start (map fst nodes) ->
-    forall s o, nth_error (annotate matching false start nlines nodes) s = Some o ->
-    o_ok o = true \/ is_mt (o_commit o) = true.
+  (** what one [compute] call may start from: every unresolved line is still recorded in the
+      source of the commit it was left in *)
+  Definition ready (st : state) : Prop :=
+    NoDup (keys (st_srcs st)) /\
+    (forall c m, lookup c (st_srcs st) = Some m -> m <> []) /\
+    (forall c m x s, lookup c (st_srcs st) = Some m -> In (x, s) m -> s < length (st_olm st)) /\
+    (forall s o, nth_error (st_olm st) s = Some o ->
+       o_ok o = true \/ exists m x, lookup (o_commit o) (st_srcs st) = Some m /\ In (x, s) m).
+
+  (** One [compute] call on a closed stream that contains every pending commit: afterwards
+      every unresolved origin and every pending commit is the target of a missing edge of
+      this call — a commit outside the range this call searched. *)
+  Theorem run_phase_strict st : ready st ->
+    (forall c, In c (keys (st_srcs st)) -> In c (map fst nodes)) ->
+    done_ok (run_phase matching false st nodes).
   Proof.
-    intros Hstart s o Ho. unfold annotate, init_state in Ho. cbn [st_olm st_srcs] in Ho.
-    destruct (Nat.eq_dec nlines 0) as [->|Hpos].
-    - exfalso. assert (Hl := process_nodes_length matching false nodes
-                  (mk_state [] [(start, [])] 0)).
-      cbn [st_olm length map seq] in Hl, Ho.
-      assert (Hs : s < length (st_olm (process_nodes matching false (mk_state [] [(start, [])] 0) nodes)))
-        by (apply nth_error_Some; congruence).
-      rewrite Hl in Hs. cbn in Hs. lia.
-    - set (diag := map (fun i => (i, i)) (seq 0 nlines)) in *.
-      assert (Hdiag : forall x s0, In (x, s0) diag <-> x = s0 /\ s0 < nlines).
-      { intros x s0. unfold diag. rewrite in_map_iff. split.
-        - intros [i [Heq Hi]]. inversion Heq; subst. apply in_seq in Hi. split; auto. lia.
-        - intros [-> Hs0]. exists s0. split; auto. apply in_seq. lia. }
-      apply (process_nodes_K nodes [] _ eq_refl) in Ho; auto.
-      assert (Hsm : is_mt start = false).
-      { apply in_map_iff in Hstart. destruct Hstart as [nd [<- Hnd]]. now apply H_mt_not_node. }
-      constructor; cbn [st_olm st_srcs st_unres].
-      + intros s0 o0 Ho0. right. right. apply nth_error_map_inv in Ho0.
-        destruct Ho0 as [i [Hi ->]]. apply nth_error_seq_inv in Hi. destruct Hi as [-> Hs0].
-        exists start, diag, s0. cbn [Nat.add st_srcs lookup].
-        rewrite Nat.eqb_refl. split; [reflexivity|]. split; [exact Hsm|]. apply Hdiag. auto.
-      + intros c m Hl. cbn [lookup] in Hl. destruct (Nat.eqb_spec c start); [|discriminate].
-        inversion Hl; subst c m. split; [|right; exact Hstart].
-        intros Hd. assert (Hin : In (0, 0) diag) by (apply Hdiag; split; auto; lia).
-        rewrite Hd in Hin. destruct Hin.
-      + cbn. constructor; [intros []|constructor].
-      + lia.
-      + split; [intros ? ? []|].
-        intros c m x s0 Hl Hin. cbn [lookup] in Hl. destruct (Nat.eqb_spec c start); [|discriminate].
-        inversion Hl; subst c m. apply Hdiag in Hin. rewrite map_length, seq_length. lia.
+    intros [Rn [Rk [Rb Rf]]] Hkeys. unfold run_phase.
+    apply (process_nodes_K nodes [] _ eq_refl).
+    assert (Hnode_mt : forall c, In c (map fst nodes) -> is_mt c = false).
+    { intros c Hc. apply in_map_iff in Hc. destruct Hc as [nd [<- Hnd]]. now apply H_mt_not_node. }
+    assert (Hkey_of : forall c m, lookup c (st_srcs st) = Some m -> In c (keys (st_srcs st))).
+    { intros c m Hl. destruct (in_dec Nat.eq_dec c (keys (st_srcs st))) as [Hi|Hi]; auto.
+      apply lookup_none_keys in Hi. congruence. }
+    constructor; cbn [st_olm st_srcs st_unres].
+    - intros s o Ho. destruct (Rf s o Ho) as [Hok|[m [x [Hl Hx]]]]; [left; now left|].
+      right. right. exists (o_commit o), m, x. split; auto. split; auto.
+      apply Hnode_mt, Hkeys. eapply Hkey_of; eauto.
+    - intros c m Hl. split; [eapply Rk; eauto|]. right. apply Hkeys. eapply Hkey_of; eauto.
+    - exact Rn.
+    - lia.
+    - split; [intros ? ? []|exact Rb].
   Qed.
+
+  Lemma done_ready st : done_ok st -> ready st.
+  Proof.
+    intros [Hf [_ [Hn [Hk Hb]]]]. repeat split; auto.
+    intros s o Ho. destruct (Hf s o Ho) as [Hok|[_ H]]; auto.
+  Qed.
+
+  Lemma done_strict st : done_ok st ->
+    forall s o, nth_error (st_olm st) s = Some o -> o_ok o = true \/ is_mt (o_commit o) = true.
+  Proof. intros [Hf _] s o Ho. destruct (Hf s o Ho) as [Hok|[Hm _]]; auto. Qed.
 End Strict.
+
+Lemma init_ready start nlines : 0 < nlines -> ready (init_state start nlines).
+Proof.
+  intros Hpos. unfold init_state, ready. cbn [st_olm st_srcs].
+  set (diag := map (fun i => (i, i)) (seq 0 nlines)).
+  assert (Hdiag : forall x s0, In (x, s0) diag <-> x = s0 /\ s0 < nlines).
+  { intros x s0. unfold diag. rewrite in_map_iff. split.
+    - intros [i [Heq Hi]]. inversion Heq; subst. apply in_seq in Hi. split; auto. lia.
+    - intros [-> Hs0]. exists s0. split; auto. apply in_seq. lia. }
+  split; [cbn; constructor; [intros []|constructor]|]. split; [|split].
+  - intros c m Hl. cbn [lookup] in Hl. destruct (Nat.eqb_spec c start); [|discriminate].
+    inversion Hl; subst c m. intros Hd. assert (Hin : In (0, 0) diag) by (apply Hdiag; split; auto).
+    rewrite Hd in Hin. destruct Hin.
+  - intros c m x s0 Hl Hin. cbn [lookup] in Hl. destruct (Nat.eqb_spec c start); [|discriminate].
+    inversion Hl; subst c m. apply Hdiag in Hin. rewrite map_length, seq_length. lia.
+  - intros s o Ho. right. apply nth_error_map_inv in Ho.
+    destruct Ho as [i [Hi ->]]. apply nth_error_seq_inv in Hi. destruct Hi as [-> Hs0].
+    cbn [o_commit Nat.add]. exists diag, s. cbn [lookup]. rewrite Nat.eqb_refl. split; auto.
+    apply Hdiag. auto.
+Qed.
